@@ -219,24 +219,24 @@ def gen_boards():
     write_if_changed(os.path.join(GEN, "Boards.v"), t)
 
 
-def regenerate():
-    """returns None on success, else an error string"""
+def regenerate(only=None):
+    """returns None on success, else an error string; `only` = names of the plugins to run (None: all)"""
     try:
         gen_boards()
-        for f in extra_generators():
+        for f in extra_generators(only):
             f()
     except Exception as e:  # any failure of the translator is a broken tie, reported by the caller
         return "%s: %s" % (type(e).__name__, e)
     return None
 
 
-def extra_generators():
+def extra_generators(only=None):
     """tools/genx_*.py each define generate() (one translator plugin per table family)"""
     import importlib.util
     out = []
     d = os.path.dirname(os.path.abspath(__file__))
     for f in sorted(os.listdir(d)):
-        if f.startswith("genx_") and f.endswith(".py"):
+        if f.startswith("genx_") and f.endswith(".py") and (only is None or f[5:-3] in only):
             spec = importlib.util.spec_from_file_location(f[:-3], os.path.join(d, f))
             m = importlib.util.module_from_spec(spec)
             spec.loader.exec_module(m)
